@@ -15,6 +15,8 @@ import (
 func init() { register("C20", checkC20) }
 
 func checkC20(p *load.Program, r *kit.Report) {
+	r.Rule("CLEAR-RESETS", "Clear resets list and lookup on every path, whatever the removal of the stored file answers", 2)
+	checkClearAlwaysResets(p, r, "CLEAR-RESETS")
 	r.NotDecided = "score sums over histories, the shuffle, concurrent histories beyond the atomicity of each method, byte-equality of a round trip."
 	r.Rule("LOCKSET", "lookup/list/lastSaved and the Score/LastTime of stored peers are accessed only under the repository lock (constructor and LoadSeeds, which runs before any thread exists, exempt)", 15)
 	r.Rule("PERSIST-UNDER-LOCK", "StoragePeerRepository writes the peers file only while it holds the repository lock that it serialised the list under: two Saves (or a Save and updates) cannot leave an older snapshot on disk after a newer one", 1)
